@@ -2,16 +2,18 @@ package c14
 
 // C14 — the consensus write-ahead log replays what was written or reports corruption.
 //
-// Model: spec/WAL/WAL.tla. The writer half (Open / Write with the bufio head buffer
-// running full inside a record / Flush / Rotate / Close) produces every log of NRecs
-// records over up to MaxFiles files; then one damage (none, Cut at a cell, Flip of a
+// Model: spec/WAL/WAL.tla. The writer half (Open / GroupWrite = ONE Group.Write call, the
+// unit the group's mutex makes atomic, with the bufio head buffer running full inside it /
+// Flush / Rotate, enabled between any two calls, also between two Group.Write calls of one
+// record / Close) produces every log of NRecs records over up to MaxFiles files; then one damage (none, Cut at a cell, Flip of a
 // cell, a length flip with its effect) and the reader half: the strict decoder, one
 // action per Decode call, and SearchForEndHeight as coded. TLC checks PrefixThenEnd,
 // MarkerSound and MarkerComplete and exports, for every damaged log, what reading it
 // back yields.
 //
 // Binding: every exported writer behaviour is executed on the real consensus.NewWAL
-// (every record kind the node writes), the files are read back, and EVERY byte offset
+// (every record kind the node writes; a rotation between two Group.Write calls of a record
+// through the verif hook in (*Group).Write, see groupwrite.go), the files are read back, and EVERY byte offset
 // of a small log is cut and EVERY byte is flipped with several masks; each concrete
 // damage is mapped to its model class and the real WALDecoder sequence (messages
 // identified by their bytes), SearchForEndHeight's result in both modes and what the
@@ -294,6 +296,7 @@ type stats struct {
 	removedVariant int
 	realised       int
 	midRot         int
+	keys           map[string]int // violation keys the replay of model behaviours produced
 	retried        int
 	unmapped       int
 	driftN         int
@@ -320,6 +323,7 @@ func runC14(c *core.Ctx) {
 			}
 		}()
 	}
+	defer flushPending(c)
 	o.Level = "model_checking"
 	o.Rule = "behaviour = one TLC-generated writer history executed on the real WAL + one concrete damage (cut offset / flipped byte and mask / none) + reading the files back (strict decoder, SearchForEndHeight for every height in both modes, decoding on from the returned reader); non-trivial = the damage is not 'none'; distinct = distinct (file layout, model damage class) pairs exercised"
 	o.Assumptions = []string{
@@ -328,8 +332,10 @@ func runC14(c *core.Ctx) {
 		"CRC-32C collisions are ignored; payloads that embed a well-formed record are exercised only by the dedicated look-alike probe",
 		"large logs (a filler block part makes the 40 KiB head buffer run full at a chosen byte) are damaged at every header / boundary byte and at sampled payload offsets, small logs at every byte",
 		"a search in which an altered record lies on the way to the marker may or may not find it (the property only demands it when the way is undamaged)",
+		"the group rotates only between two Group.Write calls (the mutex is held for the whole call) and, like its ticker, only when the head file is not empty; OnStart's EndHeight(0) is written before the rotating goroutine exists",
+		"one EncodeCuts for every record of the model (the cuts common to all small record kinds); encoders that cut only large records are covered by the boundary probe, not by the model",
 	}
-	o.Explanation = "TLC enumerates every log of NRecs records (every way the node's writer calls interleave with the head buffer running full and with rotations), every damage class and what the coded readers yield, and checks PrefixThenEnd / MarkerSound / MarkerComplete on the model. The harness writes each log with the real WAL, applies every concrete cut and flip, and compares the real decoder sequence and SearchForEndHeight results with the property (violation) and with the model's exact prediction (drift). The two switches of the model are set to what the code is probed to do; where a switch is at its as-coded value the model itself violates MarkerComplete (a lead) and the replay must reproduce that on the code."
+	o.Explanation = "TLC enumerates every log of NRecs records (every way the node's writer calls interleave with the head buffer running full and with rotations), every damage class and what the coded readers yield, and checks PrefixThenEnd / MarkerSound / MarkerComplete on the model. The harness writes each log with the real WAL, applies every concrete cut and flip, and compares the real decoder sequence and SearchForEndHeight results with the property (violation) and with the model's exact prediction (drift). The writer is modelled at the grain of one Group.Write call (what the group's mutex makes atomic with respect to RotateFile): how WALEncoder.Encode cuts a record into such calls (EncodeCuts) is probed on the code like the two switches FlushOnRotate / TornTailIsEOF, and the group may rotate between any two calls. The parameters of the model are set to what the code is probed to do; where one is not at its as-designed value (a switch FALSE, a record handed to the group in more than one call) the model itself violates MarkerComplete (a lead) and the replay must reproduce that on the code. Extras next to the replay: the group's own ticker rotating, a rotation at every boundary between two Group.Write calls of every record kind (also block parts far larger than the head buffer), and a real goroutine calling RotateFile while another writes."
 	o.Trusted = []string{"TLC", "the byte-to-cell mapping of the harness (cross-checked: intact-prefix length is recomputed from the bytes and compared with the model's for every case)", "libs/ser round trip (every undamaged record must re-encode to its payload)"}
 
 	// the logs are small and rewritten tens of thousands of times: keep them in memory-backed
@@ -470,7 +476,7 @@ func runC14(c *core.Ctx) {
 		if variant.Cuts != "" || nonUniform {
 			rounds = c.Pick(4, 12) // the window exists: try harder to land in it
 		}
-		concurrentRotationProbe(c, base, rounds, 100)
+		concurrentRotationProbe(c, base, rounds, 120)
 	}()
 	for _, cfgName := range cfgNames {
 		baseCfg, err := ioutil.ReadFile(filepath.Join(c.SpecDir("WAL"), cfgName))
@@ -606,7 +612,7 @@ func runC14(c *core.Ctx) {
 	// budget runs out it is the sampled 40 KiB logs that are reported as not run
 	sort.SliceStable(jobs, func(a, b int) bool { return cost(jobs[a]) < cost(jobs[b]) })
 
-	st := &stats{classes: map[string]bool{}, kinds: map[string]int{}, byDamage: map[string]int{}, lenEffects: map[string]int{}}
+	st := &stats{classes: map[string]bool{}, kinds: map[string]int{}, byDamage: map[string]int{}, lenEffects: map[string]int{}, keys: map[string]int{}}
 	tModel := time.Since(c.Start).Seconds()
 	nMasks := c.Pick(3, 5)
 
@@ -669,6 +675,7 @@ func runC14(c *core.Ctx) {
 	o.Evaluations = st.evals
 	o.Distinct = len(st.classes)
 	c.SetExtra("logs_realised", st.realised)
+	c.SetExtra("replay_cases_by_violation_key", st.keys)
 	c.SetExtra("records_written_with_a_rotation_between_their_group_writes", st.midRot)
 	if st.midRot > 0 {
 		c.SetExtra("group_write_binding", bindingName())
@@ -704,6 +711,9 @@ func runC14(c *core.Ctx) {
 			if v.Key == want {
 				found = true
 			}
+		}
+		if sw == "EncodeCuts" {
+			found = st.keys[want] > 0 // by the replay of the model's behaviours, not by a probe
 		}
 		if !found {
 			c.Infra("model lead (%s) was not reproduced on the code: no %s", sw, want)
@@ -814,6 +824,9 @@ func runJob(c *core.Ctx, wdir string, variant writerVariant, j job, st *stats, n
 		}
 		if v.Drift != "" {
 			st.driftN++
+		}
+		if v.Key != "" {
+			st.keys[v.Key]++
 		}
 		st.mu.Unlock()
 		if v.Key != "" {
